@@ -341,7 +341,7 @@ def _alarm(signum, frame):
     raise _Hang()
 
 
-WATCHDOG_S = int(os.environ.get("VERIF_WATCHDOG", "60"))
+WATCHDOG_S = int(os.environ.get("VERIF_WATCHDOG", "45"))
 _HUNG = None      # shared counter (inherited by the forked workers): after many hangs the watchdog gets short
 
 
@@ -359,7 +359,7 @@ def _work(cfg):
     import signal
     signal.signal(signal.SIGALRM, _alarm)
     hung = _hung_counter()
-    signal.alarm(cfg.get("watchdog", WATCHDOG_S) if hung.value < 24 else 3)
+    signal.alarm(min(cfg.get("watchdog", WATCHDOG_S), WATCHDOG_S) if hung.value < 8 else 3)
     try:
         if "calls" in cfg:
             return scripted(cfg, cfg["calls"])
@@ -387,8 +387,16 @@ def record_many(cfgs, procs=None):
     ctx = mp.get_context("fork")
     lib()
     _hung_counter()
+    # a fixed pseudo-random order spreads slow or hanging configurations over the workers
+    import random
+    order = list(range(len(cfgs)))
+    random.Random(12345).shuffle(order)
     with ctx.Pool(procs) as pool:
-        return pool.map(_work, cfgs, chunksize=max(1, len(cfgs) // (procs * 8)))
+        res = pool.map(_work, [cfgs[i] for i in order], chunksize=max(1, len(cfgs) // (procs * 16)))
+    out = [None] * len(cfgs)
+    for i, r in zip(order, res):
+        out[i] = r
+    return out
 
 
 if __name__ == "__main__":
